@@ -289,10 +289,18 @@ def r5_not_found_iff_unbound(ctx, rule="C13.R5"):
             R.anchor_lost(rule, "registry lookup / MethodNotFound in %s" % b.path)
             continue
         none_arms = set()
+        trl = ctx.tracer(follow_callers=False, follow_fields=False, inline_calls=False)
         for l in look:
             for sb, arms, other in flow.switch_on(b, l.dest["l"]):
                 if arms.get("0") is not None:
                     none_arms.add(arms["0"])
+                # what is matched is the lookup's result and nothing else (no `if cond { None } else { lookup }` merge)
+                dp = op_place(b.blocks[sb]["term"]["discr"])
+                for bi2, si2, dpl2, src2 in (b.defs.get(dp["l"], []) if dp is not None else []):
+                    if src2[0] == "rv" and src2[1]["k"] == "discr":
+                        lv = trl.origins(b, src2[1]["pl"])
+                        alien = [x for x in lv if not (x.kind == "call" and re.search(r"Methods::method(_with_name)?$", x.detail.get("callee") or ""))]
+                        R.check(not alien, rule, "%s:match-is-on-the-lookup-alone" % fkey(b), "the value matched is the registry lookup's result", "%s decides `method not found` on a value that is not always the registry lookup's result (%s): a name that is bound in the module can be answered as unknown" % (short(b.path), [flow.leaf_str(x)[:60] for x in alien]), "%s:%d" % (b.file, block_line(b, sb)))
         for bi, st in mnf:
             n += 1
             R.check(any(b.dominates(t, bi) for t in none_arms), rule, "%s:not-found-only-on-lookup-miss" % fkey(b), "MethodNotFound is answered on the lookup's own None arm", "%s answers `method not found` on a branch that is not the None arm of the registry lookup itself (the lookup's result is filtered or re-decided first): a name that is bound in the module is reported as unknown" % short(b.path), "%s:%d" % (b.file, st["sp"][0]))
@@ -349,6 +357,46 @@ def r8_insert_fails_only_as_prechecked(ctx):
     R.check(bool(ins) and ins <= pre, "C13.R8", "insert-refuses-only-what-precheck-refuses", "verify_and_insert refuses for the reasons verify_method_name refuses (%s)" % sorted(pre), "verify_and_insert can refuse with %s although the up-front check (verify_method_name: %s) accepted the name: a subscription registration then fails after its unsubscribe method was registered, leaving the module changed" % (sorted(ins - pre), sorted(pre)), None)
 
 
+SILENT = r"hash_map::Entry::<.*>::(or_insert|or_insert_with|or_insert_with_key|or_default|and_modify|insert_entry)$|hash_map::OccupiedEntry::<.*>::(insert|get_mut|into_mut|remove|remove_entry)$|HashMap::<.*>::(get_mut|values_mut|iter_mut|retain|clear|get_many_mut|get_disjoint_mut)$|Extend<.*>>::extend$|HashMap::<.*>::extend$"
+
+
+def _silent_write_scan(F, R, rule, want_body):
+    n = 0
+    bad = []
+    for b in F.real_bodies():
+        if is_test_body(b) or not want_body(b):
+            continue
+        n += 1
+        for c in b.calls_to(SILENT):
+            ty = (c.self_ty or "") + " ".join(c.ga) + " ".join(b.locals[p["l"]]["ty"] for p in [op_place(a) for a in c.args[:1]] if p is not None and not p.get("p"))
+            if TABLE_TY in ty:
+                bad.append(c)
+    for c in bad:
+        R.fn(c.body)
+        R.bad(rule, "%s:%s" % (fkey(c.body), (c.name() or "").split("::")[-1]), "%s writes the method table with %s: a taken name is kept or replaced silently - the registration reports success although the name was taken (and its handler is dropped or the old one replaced)" % (short(c.body.path), short(c.name())), where(c))
+    if not bad:
+        R.ok(rule, "no-silent-table-writes", "no keep-or-overwrite entry operation on the method table in %d bodies" % n)
+    return n
+
+
+def r9_no_silent_table_writes(ctx):
+    """every write into the method table either cannot replace/keep silently (VacantEntry::insert behind an Occupied =>
+    AlreadyRegistered arm) or is an insert after a successful verify (R1). The entry API's keep-or-overwrite operations
+    (or_insert*, or_default, and_modify, OccupiedEntry::insert), bulk writes (extend) and in-place mutation (get_mut,
+    values_mut, iter_mut, retain, clear) never touch the table: `entry(name).or_insert(cb)` reports success for a taken
+    name and drops the new handler."""
+    n = _silent_write_scan(ctx.F, ctx.R, "C13.R9", lambda b: b.crate == CORE and "server::rpc_module" in b.path)
+    ctx.R.floor("C13.R9", n, 40, "rpc_module bodies scanned")
+
+
+def control_silent_write(ctx):
+    from .common import control
+    control(ctx, "C13.R9", "Entry::or_insert on a table of MethodCallback values", lambda r: _silent_write_scan(ctx.F, r, "C13.R9", lambda b: b.path.startswith("verif_fixtures::")))
+
+
+CONTROLS = [control_silent_write]
+
+
 def rgen_generated_registrations(ctx):
     """the registrations #[rpc(server)] generates bind every declared name and alias to its own handler (= C17, run over
     the generated corpus)"""
@@ -356,7 +404,7 @@ def rgen_generated_registrations(ctx):
     return c17.w_rules(ctx)
 
 
-LIB_RULES = [r1_insert_after_verify, r2_all_or_nothing, r3_copy_on_write, r4_dispatch_and_remove, r5_not_found_iff_unbound, r6_sibling_registrars, r7_names_spelled_alike, r8_insert_fails_only_as_prechecked]
+LIB_RULES = [r1_insert_after_verify, r2_all_or_nothing, r3_copy_on_write, r4_dispatch_and_remove, r5_not_found_iff_unbound, r6_sibling_registrars, r7_names_spelled_alike, r8_insert_fails_only_as_prechecked, r9_no_silent_table_writes]
 CONFIGS_QUICK = ["libs-all", "corpus"]
 CONFIGS_THOROUGH = ["libs-all", "facade-full", "corpus"]
 
